@@ -280,25 +280,48 @@ func isZero(v *Value) bool {
 }
 
 func (ev *Eval) quant(e *Expr) *Value {
-	t := ev.resolveType(e.Typ)
-	specs := leafSpecs(t)
-	bv := &Value{T: t, L: make([]*Term, len(specs))}
+	// `forall a T, b U :: body` is parsed as nested quantifiers: bind all variables of the chain in one SMT quantifier
+	// (a nested quantifier gets no usable multi-pattern and sends the solvers into instantiation loops)
+	var names []string
+	var bvs []*Value
 	var vars []*Term
-	for i, sp := range specs {
-		x := BoundVar("q!"+e.Name+sp.Suffix, sp.Sort)
-		bv.L[i] = x
-		vars = append(vars, x)
+	cur := e
+	for {
+		t := ev.resolveType(cur.Typ)
+		specs := leafSpecs(t)
+		bv := &Value{T: t, L: make([]*Term, len(specs))}
+		for i, sp := range specs {
+			x := BoundVar("q!"+cur.Name+sp.Suffix, sp.Sort)
+			bv.L[i] = x
+			vars = append(vars, x)
+		}
+		names = append(names, cur.Name)
+		bvs = append(bvs, bv)
+		if cur.Args[0].Op == e.Op {
+			cur = cur.Args[0]
+			continue
+		}
+		break
 	}
 	if ev.bound == nil {
 		ev.bound = map[string]*Value{}
 	}
-	save, had := ev.bound[e.Name]
-	ev.bound[e.Name] = bv
-	body := ev.boolExpr(e.Args[0])
-	if had {
-		ev.bound[e.Name] = save
-	} else {
-		delete(ev.bound, e.Name)
+	saved := map[string]*Value{}
+	had := map[string]bool{}
+	for i, n := range names {
+		if old, ok := ev.bound[n]; ok {
+			saved[n] = old
+			had[n] = true
+		}
+		ev.bound[n] = bvs[i]
+	}
+	body := ev.boolExpr(cur.Args[0])
+	for _, n := range names {
+		if had[n] {
+			ev.bound[n] = saved[n]
+		} else {
+			delete(ev.bound, n)
+		}
 	}
 	// bounded-range typing of integer bound vars is not assumed: spec ints are mathematical
 	if e.Op == "forall" {
@@ -739,6 +762,11 @@ func (ev *Eval) call(e *Expr) *Value {
 			return g
 		}
 		return ev.eval(e.Args[0])
+	case "once":
+		// once(x.f): has the sync.Once stored in field f of x fired?
+		a := ev.evalAddr(e.Args[0])
+		slot, idx := onceSlot(a)
+		return scalar(specBool, Select(ev.state().heapArr(slot, onceSort), idx))
 	case "didlock":
 		// true iff this path acquired a monitor lock that guards fields
 		if g := ev.state().ghost["$didlock"]; g != nil {
@@ -763,6 +791,26 @@ func (ev *Eval) call(e *Expr) *Value {
 			ev.fail("asString needs an interface value")
 		}
 		return ev.v.unbox(ev.state(), x, types.Typ[types.String])
+	case "oldhas", "oldget":
+		// oldhas(m, k) / oldget(m, k): membership / value in the pre-state map contents for a key computed in the post-state
+		m := ev.eval(e.Args[0])
+		k := ev.eval(e.Args[1])
+		if !isMap(m.T) || ev.old == nil {
+			ev.fail("%s(m, k) needs a map and a pre-state", e.Name)
+		}
+		mt := under(m.T).(*types.Map)
+		k = ev.coerce(k, mt.Key())
+		if e.Name == "oldhas" {
+			return scalar(specBool, ev.v.mapHas(ev.old, m, k))
+		}
+		return ev.v.mapGet(ev.old, m, k)
+	case "payload":
+		// payload(x): the data word of an interface value (the pointer itself when the dynamic type is a pointer)
+		x := ev.eval(e.Args[0])
+		if !isIface(x.T) {
+			ev.fail("payload needs an interface value")
+		}
+		return &Value{T: types.Typ[types.UnsafePointer], L: []*Term{x.L[1]}}
 	case "isnil":
 		x := ev.eval(e.Args[0])
 		return scalar(specBool, Eq(x.L[0], Int(0)))
@@ -923,6 +971,13 @@ func (ev *Eval) havocTarget(e *Expr) {
 		}
 		ev.fail("modifies %q: not a ghost variable or pointer", e.Text)
 	case "call":
+		if e.Name == "once" && len(e.Args) == 1 {
+			a := ev.evalAddr(e.Args[0])
+			slot, idx := onceSlot(a)
+			h := s.heapArr(slot, onceSort)
+			s.heap[slot] = Store(h, idx, Fresh("mod!once", SBool))
+			return
+		}
 		if e.Name == "heap" && len(e.Args) == 1 && e.Args[0].Op == "str" {
 			// modifies heap("F:pkg.T.f"): whole heap family
 			prefix := e.Args[0].Name
@@ -1018,8 +1073,8 @@ func inferPatterns(vars []*Term, body *Term) [][]*Term {
 		}
 	}
 	if len(pats) > 0 {
-		if len(pats) > 2 {
-			pats = pats[:2]
+		if len(pats) > 8 {
+			pats = pats[:8]
 		}
 		return pats
 	}
@@ -1044,4 +1099,34 @@ func inferPatterns(vars []*Term, body *Term) [][]*Term {
 		return [][]*Term{multi}
 	}
 	return nil
+}
+
+
+// assignGhost stores a value into a ghost field (x.g) or ghost global.
+func (ev *Eval) assignGhost(lhs *Expr, val *Value) {
+	s := ev.st
+	switch lhs.Op {
+	case "id":
+		if _, ok := s.ghost[lhs.Name]; ok {
+			s.ghost[lhs.Name] = val
+			return
+		}
+	case "field":
+		x := ev.eval(lhs.Args[0])
+		if p, ok := under(x.T).(*types.Pointer); ok {
+			st := p.Elem()
+			if tc := ev.v.contracts.types[typeName(st)]; tc != nil {
+				for _, g := range tc.Ghost {
+					if g.Name == lhs.Name {
+						gt := ev.resolveType(g.Typ)
+						for k, hk := range heapKeys("G:"+typeName(st)+"."+lhs.Name, gt, SInt) {
+							s.heap[hk.name] = Store(s.heapArr(hk.name, hk.sort), x.term(), val.L[k])
+						}
+						return
+					}
+				}
+			}
+		}
+	}
+	ev.fail("ghost assignment target %q is not a ghost variable or ghost field", lhs.Text)
 }
